@@ -1,9 +1,165 @@
-(** C16 — register collections survive serialisation unchanged (placeholder until Proofs/Marshal.v lands). *)
-From Coq Require Import NArith List String.
-From CSS Require Import Model.Marshal.
+(** C16 — register collections survive serialisation unchanged.
+    This file holds only the property theorems, each closed by [exact].
+
+    Vocabulary (model in Model/Marshal.v, definitions below in Proofs/Marshal.v):
+    - [reg] = (ID, raw value); the 256-bit key's raw value is its 32 bytes read little-endian;
+    - [registry] : the 26 register types of pkg/registers ([r_bits] = width of the Go type,
+      [r_ser] = bytes written by ValueBytes, [r_parser] = bytes read by ValueFromBytes);
+    - [valid r]   : the ID is registered and the raw value fits the Go type
+                    ([exists i, lookup (fst r) registry = Some i /\ snd r < 2 ^ r_bits i];
+                    [validb] is its boolean form, [C16_validb_iff]);
+    - [ids l]     = [map fst l];
+    - [value_bytes] / [value_from_bytes] : legacy JSON byte format; [new] = registers.New;
+      [own_value r] = what r.Value() hands back to New;
+    - [json_roundtrip] / [yaml_roundtrip] : marshal then unmarshal a collection
+      (results [ROk] / [RErr] / [RPanic]);
+    - [reg_le a b] : [reg_leb a b = true], the order of Registers.Sort (address, then ID). *)
+From Coq Require Import NArith List String Permutation Sorting.Sorted.
+From CSS Require Import Model.Marshal Proofs.Marshal.
 Import ListNotations.
 Open Scope N_scope.
 
-Theorem C16_new_unknown_id_is_error : forall v, new "BOGUS"%string v = RErr.
-Proof. intro v. reflexivity. Qed.
-Print Assumptions C16_new_unknown_id_is_error.
+(** * Vocabulary *)
+
+Theorem C16_validb_iff : forall r, validb r = true <-> valid r.
+Proof. exact validb_iff. Qed.
+Print Assumptions C16_validb_iff.
+
+(** the generic lemmas below hold for every registry entry because each of the 26 entries
+    passes [entry_ok] (parser width <= serialised width, Go type fits the parser width,
+    the key is 32 bytes / 256 bits) *)
+Theorem C16_registry_ok : List.length registry = 26%nat /\ forallb entry_ok registry = true.
+Proof. exact (conj registry_length registry_ok). Qed.
+Print Assumptions C16_registry_ok.
+
+(** * 1. little-endian bytes *)
+
+Theorem C16_le_roundtrip : forall n x, x < 256 ^ N.of_nat n -> le_value (le_bytes n x) = x.
+Proof. exact le_roundtrip. Qed.
+Print Assumptions C16_le_roundtrip.
+
+Theorem C16_le_bytes_length : forall n x, List.length (le_bytes n x) = n.
+Proof. exact le_bytes_length. Qed.
+Print Assumptions C16_le_bytes_length.
+
+Theorem C16_le_bytes_range : forall n x, Forall (fun b => b < 256) (le_bytes n x).
+Proof. exact le_bytes_range. Qed.
+Print Assumptions C16_le_bytes_range.
+
+(** * 2. ValueBytes / ValueFromBytes, every register type *)
+
+Theorem C16_bytes_roundtrip : forall r, valid r ->
+  exists b, value_bytes r = ROk b /\ value_from_bytes (fst r) b = ROk r.
+Proof. exact bytes_roundtrip. Qed.
+Print Assumptions C16_bytes_roundtrip.
+
+Theorem C16_from_bytes_never_panics : forall id b, value_from_bytes id b <> RPanic.
+Proof. exact from_bytes_never_panics. Qed.
+Print Assumptions C16_from_bytes_never_panics.
+
+Theorem C16_value_bytes_never_panics : forall r, value_bytes r <> RPanic.
+Proof. exact value_bytes_never_panics. Qed.
+Print Assumptions C16_value_bytes_never_panics.
+
+(** * 3. registers.New *)
+
+Theorem C16_new_own : forall r, valid r -> new (fst r) (own_value r) = ROk r.
+Proof. exact new_own. Qed.
+Print Assumptions C16_new_own.
+
+Theorem C16_new_unknown : forall id v, lookup id registry = None -> new id v = RErr.
+Proof. exact new_unknown. Qed.
+Print Assumptions C16_new_unknown.
+
+Theorem C16_new_never_panics : forall id v, new id v <> RPanic.
+Proof. exact new_never_panics. Qed.
+Print Assumptions C16_new_never_panics.
+
+(** * 4. legacy JSON: order preserved, duplicates allowed *)
+
+Theorem C16_json_roundtrip : forall regs, Forall valid regs -> json_roundtrip regs = ROk regs.
+Proof. exact json_roundtrip_ok. Qed.
+Print Assumptions C16_json_roundtrip.
+
+(** * 5. hexadecimal *)
+
+Theorem C16_hex_roundtrip : forall bits x, x < 2 ^ bits -> parse_hex bits (to_hex x) = Some x.
+Proof. exact hex_roundtrip. Qed.
+Print Assumptions C16_hex_roundtrip.
+
+Theorem C16_hex_bytes_roundtrip : forall b,
+  Forall (fun x => x < 256) b -> hex_to_bytes (bytes_to_hex b) = Some b.
+Proof. exact hex_bytes_roundtrip. Qed.
+Print Assumptions C16_hex_bytes_roundtrip.
+
+(** * 6. YAML *)
+
+Theorem C16_sort_perm : forall l, Permutation (sort_regs l) l.
+Proof. exact sort_perm. Qed.
+Print Assumptions C16_sort_perm.
+
+Theorem C16_sort_sorted : forall l,
+  StronglySorted (fun a b => reg_leb a b = true) (sort_regs l).
+Proof. exact sort_sorted. Qed.
+Print Assumptions C16_sort_sorted.
+
+(** [_partial]: the third hypothesis is missing from the property as written.  A key whose
+    32 bytes, read as the big-endian number the YAML document shows, fit 64 bits comes back
+    as an error (known finding C16-yaml-small-public-key, next theorem). *)
+Theorem C16_yaml_roundtrip_partial : forall regs,
+  Forall valid regs -> NoDup (ids regs) ->
+  (forall r, In r regs -> fst r = key_id -> 2 ^ 64 <= be_value (le_bytes 32 (snd r))) ->
+  yaml_roundtrip regs = ROk (sort_regs regs).
+Proof. exact yaml_roundtrip_partial. Qed.
+Print Assumptions C16_yaml_roundtrip_partial.
+
+Theorem C16_yaml_small_key_refuted :
+  exists regs, Forall valid regs /\ NoDup (ids regs) /\ yaml_roundtrip regs = RErr.
+Proof. exact yaml_small_key_refuted. Qed.
+Print Assumptions C16_yaml_small_key_refuted.
+
+(** without the key hypothesis: the sorted collection or an error, never a panic *)
+Theorem C16_yaml_roundtrip_total : forall regs, Forall valid regs -> NoDup (ids regs) ->
+  yaml_roundtrip regs = ROk (sort_regs regs) \/ yaml_roundtrip regs = RErr.
+Proof. exact yaml_roundtrip_total. Qed.
+Print Assumptions C16_yaml_roundtrip_total.
+
+(** * 7. the YAML result does not depend on the order of the collection *)
+
+Theorem C16_sort_order_independent : forall a b,
+  Permutation a b -> NoDup (ids a) -> sort_regs a = sort_regs b.
+Proof. exact sort_perm_unique. Qed.
+Print Assumptions C16_sort_order_independent.
+
+Theorem C16_order_independent : forall a b,
+  Permutation a b -> Forall valid a -> NoDup (ids a) -> yaml_roundtrip a = yaml_roundtrip b.
+Proof. exact order_independent. Qed.
+Print Assumptions C16_order_independent.
+
+(** * Examples: the hypotheses above are satisfiable by non-trivial values *)
+
+Open Scope string_scope.
+Example C16_ex_hyps :
+  Forall valid ex_regs /\ NoDup (ids ex_regs) /\
+  (forall r, In r ex_regs -> fst r = key_id -> 2 ^ 64 <= be_value (le_bytes 32 (snd r))).
+Proof. exact ex_hyps. Qed.
+Example C16_ex_results :
+  ex_regs = [("TXT.PUBLIC.KEY", ex_key); ("ACM_STATUS", 0x4f857010%N); ("TXT.ESTS", 0xff%N)] /\
+  json_roundtrip ex_regs = ROk ex_regs /\
+  yaml_roundtrip ex_regs =
+    ROk [("TXT.ESTS", 0xff%N); ("ACM_STATUS", 0x4f857010%N); ("TXT.PUBLIC.KEY", ex_key)] /\
+  value_bytes ("ACM_STATUS", 0x4f857010%N) = ROk [0x10; 0x70; 0x85; 0x4f; 0; 0; 0; 0]%N /\
+  yaml_value ("ACM_STATUS", 0x4f857010%N) = ROk "4f857010" /\
+  value_bytes ("TXT.ESTS", 0xff%N) = ROk [0xff]%N /\
+  yaml_value ("TXT.ESTS", 0xff%N) = ROk "ff".
+Proof. exact ex_results. Qed.
+(** a duplicated ID: JSON keeps both entries, YAML keeps the last one *)
+Example C16_ex_dup :
+  json_roundtrip [("TXT.ESTS", 1%N); ("TXT.ESTS", 2%N)]
+    = ROk [("TXT.ESTS", 1%N); ("TXT.ESTS", 2%N)] /\
+  yaml_roundtrip [("TXT.ESTS", 1%N); ("TXT.ESTS", 2%N)] = ROk [("TXT.ESTS", 2%N)].
+Proof. exact ex_dup. Qed.
+(** the small-key finding on a second witness: only the last of the 32 bytes is non-zero *)
+Example C16_ex_small_key :
+  valid (key_id, 2 ^ 255)%N /\ yaml_roundtrip [(key_id, 2 ^ 255)%N] = RErr.
+Proof. exact ex_small_key. Qed.
